@@ -90,6 +90,17 @@ def _target_names(t):
             yield from _target_names(e)
 
 
+class _Members(dict):
+    """a rule that indexes a member that is gone gets an analysis error
+    (anchor vanished), not a KeyError traceback"""
+    def __init__(self, owner):
+        super().__init__()
+        self.owner = owner
+
+    def __missing__(self, key):
+        raise AnalysisError(f"{self.owner}.{key} vanished")
+
+
 class ClassInfo:
     def __init__(self, repo, module, node, qualname):
         self.repo = repo
@@ -99,7 +110,7 @@ class ClassInfo:
         self.name = node.name
         self.attrs = {}      # name -> value expr (last assignment wins)
         self.attr_stmts = {}  # name -> statement
-        self.methods = {}    # name -> FunctionDef / AsyncFunctionDef
+        self.methods = _Members(qualname)  # name -> (Async)FunctionDef
         self.inner = {}      # name -> ClassInfo
         self.order = []      # attribute names in definition order
         for stmt in node.body:
